@@ -279,20 +279,33 @@ theorem C04_class_path_completion (host ns n : Str) (s : Option Str) (old : Opti
     fixClassPath host ns (.cls (.mk n s old pr m q)) =
       .ok (.obj (.cls (.mk n s (some (.cls n (some host) (some ns))) pr m q))) := rfl
 
-/-- open/pull results: the enumeration context is wrapped with the effective namespace while the
-    sequence continues, and dropped at its end -/
-theorem C04_context_tuple (ns ctx : Str) (items : List CItem) (t1 t2 : Option Str) :
-    rsltParams ns [.iret items, .param "EnumerationContext".toList t1 (some ctx) false,
+/-- open/pull results: when every returned object has the kind the operation expects (CIMInstance, with
+    path where required, or CIMInstanceName), the enumeration context is wrapped with the effective
+    namespace while the sequence continues, and dropped at its end -/
+theorem C04_context_tuple (kind : PullKind) (ns ctx : Str) (items : List CItem) (t1 t2 : Option Str)
+    (hk : items.all (pullItemOk kind) = true) :
+    rsltParams kind ns [.iret items, .param "EnumerationContext".toList t1 (some ctx) false,
         .param "EndOfSequence".toList t2 (some "FALSE".toList) false] = .ok (items, false, some (some ctx, ns)) ∧
-    rsltParams ns [.iret items, .param "EnumerationContext".toList t1 (some ctx) false,
+    rsltParams kind ns [.iret items, .param "EnumerationContext".toList t1 (some ctx) false,
         .param "EndOfSequence".toList t2 (some "TRUE".toList) false] = .ok (items, true, none) := by
   have e1 : ("EnumerationContext".toList = "EndOfSequence".toList) = False := by decide
   have e2 : lowerAscii "FALSE".toList = "false".toList := by decide
   have e3 : lowerAscii "TRUE".toList = "true".toList := by decide
   have e4 : ("false".toList = "true".toList) = False := by decide
   constructor <;>
-    simp only [rsltParams, List.foldl, e1, e2, e3, e4, if_true, if_false, Bool.not_true, Bool.not_false, Bool.and_false,
-      Bool.false_and, Option.isNone, Bool.and_true, Bool.true_and, pure, Except.pure] <;> rfl
+    simp only [rsltParams, rsltStep, List.foldl, e1, e2, e3, e4, hk, if_true, if_false, Bool.not_true, Bool.not_false,
+      Bool.and_false, Bool.false_and, Option.isNone, Bool.and_true, Bool.true_and, pure, Except.pure] <;> rfl
+
+/-- an open/pull answer holding an object of another kind (e.g. an instance without path where a path is
+    required, or a path where instances are expected) is rejected as CIMXMLParseError -/
+theorem C04_pull_wrong_kind_rejected (kind : PullKind) (ns : Str) (items : List CItem) (more : List RspChild)
+    (hk : items.all (pullItemOk kind) = false)
+    (hok : ∃ r, more.foldl rsltStep (.ok (items, false, none, false, false)) = .ok r ∧ r.1 = items) :
+    rsltParams kind ns (.iret items :: more) = .error .cimXmlParseError := by
+  obtain ⟨⟨o, e, c, f1, f2⟩, hr, ho⟩ := hok
+  simp only at ho
+  subst ho
+  simp [rsltParams, List.foldl, rsltStep, hr, hk, perr]
 
 /-! ### InvokeMethod: the request (Model/OpsMeth.lean) -/
 
